@@ -17,12 +17,14 @@ import SigModel.Lemmas.C09e
 namespace SigModel.Props.C09
 open SigModel.Promql
 
-/-- guard: every series of the query satisfies `LabelSafe` (no separator byte in metric name, label names,
-label values, grouping fields; unique label names; no grouping field is a proper suffix of a label name) -/
+/-- guard: every series of the query satisfies `LabelSafe` (no ',' '{' in the metric name and the label
+values, no ',' ':' '{' in label names; nothing about the grouping fields or about label names being
+suffixes of each other — that part of the guard fell with the fix of ExtractGroupByFieldsFromSeriesId) -/
 abbrev AllSafe (q : Query) (ss : List Series) : Prop := Lemmas.C09.AllSafe q ss
 
 /-- guard: `count` with an EMPTY field list is judged only for `count by ()`/`count(…)` over pairwise
-different label sets (computeAggCount puts everything under `name{` and counts distinct series ids) -/
+different label sets (computeAggCount puts everything under `name{`, also for `without ()`, and counts
+distinct series ids) -/
 abbrev CountOK (q : Query) (ss : List Series) : Prop := Lemmas.C09.CountOK q ss
 
 /-- the same query with another aggregation function -/
@@ -32,49 +34,46 @@ abbrev withFn (q : Query) (fn : Fn) : Query := Lemmas.C09.withFn q fn
 
 /-- C09.2 On `LabelSafe` inputs the key that `getAggSeriesId` cuts out of the series-id string is the
 rendering of the PromQL group key computed from the label set — for ALL names, label sets, field lists,
-`by` and `without`. -/
+`by` and `without`. (Label names may be suffixes of each other, the metric name may contain ':' as
+recording-rule names do, values may contain ':' as `instance="host:9090"` does.) -/
 theorem extract_eq_spec_of_safe (name : Str) (labels : Labels) (fields : List Str) (without : Bool)
-    (h : LabelSafe name labels fields) :
+    (h : LabelSafe name labels) :
     extractGroupKey fields without (seriesIdOf name labels)
       = render without name (specGroupKey fields without labels) :=
-  Lemmas.C09.extract_eq_spec without (Lemmas.C09.safe_of_labelSafe h)
+  Lemmas.C09.extract_eq_spec fields without (Lemmas.C09.safe_of_labelSafe h)
 
 /-- … and on such inputs two series land under the same result key exactly when PromQL puts them into
 the same group (nothing merged, nothing split). -/
 theorem group_key_faithful (name : Str) (l1 l2 : Labels) (fields : List Str) (without : Bool)
-    (h1 : LabelSafe name l1 fields) (h2 : LabelSafe name l2 fields) :
+    (h1 : LabelSafe name l1) (h2 : LabelSafe name l2) :
     extractGroupKey fields without (seriesIdOf name l1) = extractGroupKey fields without (seriesIdOf name l2)
       ↔ specGroupKey fields without l1 = specGroupKey fields without l2 :=
-  Lemmas.C09.groupKey_eq_iff without (Lemmas.C09.safe_of_labelSafe h1) (Lemmas.C09.safe_of_labelSafe h2)
+  Lemmas.C09.groupKey_eq_iff fields without (Lemmas.C09.safe_of_labelSafe h1) (Lemmas.C09.safe_of_labelSafe h2)
 
-/-- What the substring search really computes (separator-free strings, NO condition on how label names
-relate): `field:` is answered with the value of the FIRST label whose name ENDS WITH `field`. -/
-theorem extract_finds_first_suffix (name : Str) (labels : Labels) (f : Str)
-    (hn : clean name = true) (hf : clean f = true)
-    (hl : ∀ kv ∈ labels, clean kv.1 = true ∧ clean kv.2 = true) :
-    fieldValue f (seriesIdOf name labels) = (labels.find? (fun kv => f.isSuffixOf kv.1)).map (·.2) :=
-  Lemmas.C09.fieldValue_sid f labels name cBrace (Lemmas.C09.clean_colon hn) (by decide)
-    (Lemmas.C09.clean_brace hf) hf hl
+/-- the value found for a field is the value of the label with exactly that name -/
+theorem extract_is_lookup (name : Str) (labels : Labels) (f : Str) (h : LabelSafe name labels) :
+    fieldValue f (seriesIdOf name labels) = labels.lookup f :=
+  Lemmas.C09.fieldValue_sid (Lemmas.C09.safe_of_labelSafe h) f
 
-/-- C09.3 The unguarded statement is FALSE: series `m{ba="1", a="2"}` grouped `by (a)` gets the key
-`m{a:1` (the search for `a:` hits inside `ba:`) instead of `m{a:2`. -/
+/-- C09.3 The unguarded statement is FALSE: a label VALUE containing `,b:` — `m{a="1,b:2"}` grouped
+`by (b)` — is reported with `b="2"` although the series has no label `b`. -/
 theorem extract_counterexample :
     ¬ (∀ (name : Str) (labels : Labels) (fields : List Str) (without : Bool),
         extractGroupKey fields without (seriesIdOf name labels)
           = render without name (specGroupKey fields without labels)) := by
   intro h
-  exact absurd (h [109] [([98, 97], [49]), ([97], [50])] [[97]] false) (by decide)
+  exact absurd (h [109] [([97], [49, 44, 98, 58, 50])] [[98]] false) (by decide)
 
-/-- … with the effect the property forbids: `m{ba="1",a="2"}` and `m{ba="1",a="3"}` belong to different
-groups of `by (a)` but are merged under one key. -/
+/-- … with the effect the property forbids: `m{a="1,b"}` and `m{a="1,c"}` belong to different groups of
+`by (a)` but are merged under the key `m{a:1` (the value is cut at its comma). -/
 theorem merge_counterexample :
-    specGroupKey [[97]] false [([98, 97], [49]), ([97], [50])] ≠ specGroupKey [[97]] false [([98, 97], [49]), ([97], [51])]
-    ∧ extractGroupKey [[97]] false (seriesIdOf [109] [([98, 97], [49]), ([97], [50])])
-        = extractGroupKey [[97]] false (seriesIdOf [109] [([98, 97], [49]), ([97], [51])]) := by
+    specGroupKey [[97]] false [([97], [49, 44, 98])] ≠ specGroupKey [[97]] false [([97], [49, 44, 99])]
+    ∧ extractGroupKey [[97]] false (seriesIdOf [109] [([97], [49, 44, 98])])
+        = extractGroupKey [[97]] false (seriesIdOf [109] [([97], [49, 44, 99])]) := by
   decide
 
-/-- … a label VALUE containing `,b:` does the same: `m{a="1,b:2"}` grouped `by (b)` is reported with
-`b="2"` although the series has no label `b`; and `without (b)` drops the tail `b:2` of the value. -/
+/-- both directions of the damage a separator inside a value does: `by (b)` invents a label, and
+`without (b)` drops the tail `b:2` of the value of `a`. -/
 theorem value_separator_counterexample :
     extractGroupKey [[98]] false (seriesIdOf [109] [([97], [49, 44, 98, 58, 50])])
         ≠ render false [109] (specGroupKey [[98]] false [([97], [49, 44, 98, 58, 50])])
@@ -82,9 +81,16 @@ theorem value_separator_counterexample :
         ≠ render true [109] (specGroupKey [[98]] true [([97], [49, 44, 98, 58, 50])]) := by
   decide
 
-/-- the guard is satisfiable (and excludes the witness above) -/
-example : LabelSafe [109] [([97], [49]), ([98], [50])] [[97]] := by decide
-example : ¬ LabelSafe [109] [([98, 97], [49]), ([97], [50])] [[97]] := by decide
+/-- the guard is satisfiable, holds for the former witnesses of the repaired defects (label name `ba`
+next to the field `a`; metric name `a:m` with field `a`), and excludes the witness above -/
+example : LabelSafe [109] [([98, 97], [49]), ([97], [50])] := by decide
+example : LabelSafe [97, 58, 109] [([98], [49]), ([97], [50])] := by decide
+example : ¬ LabelSafe [109] [([97], [49, 44, 98, 58, 50])] := by decide
+/-- regression witnesses: `m{ba="1",a="2"}` by (a) is `m{a:2`; `a:m{b="1",a="2"}` by (a) is `a:m{a:2` -/
+example : extractGroupKey [[97]] false (seriesIdOf [109] [([98, 97], [49]), ([97], [50])]) = [109, 123, 97, 58, 50] := by
+  decide
+example : extractGroupKey [[97]] false (seriesIdOf [97, 58, 109] [([98], [49]), ([97], [50])]) = [97, 58, 109, 123, 97, 58, 50] := by
+  decide
 
 /-! ## 2. aggregation -/
 
@@ -113,7 +119,8 @@ theorem results_iff (q : Query) (ss : List Series) (g : Str) (t : Nat) (v : Rat)
 
 /-- Without `CountOK` the statement is FALSE: `count without () (m)` over `m{a="1"}`, `m{a="2"}` must give
 one group per series (value 1 each); the code reports a single series `m{` instead, nothing under the
-key of `m{a="1"}`. -/
+key of `m{a="1"}` (known finding; the repo's own Test_GetResults_AggFn_Count and the OTSDB query parser,
+which sets `Without` on every query, rely on this behaviour). -/
 theorem count_without_empty_counterexample :
     ¬ (∀ (q : Query) (ss : List Series), AllSafe q ss → ∀ s0 ∈ ss, ∀ t,
         aggAt q ss (render q.without q.name (specGroupKey q.fields q.without s0.labels)) t
@@ -121,6 +128,18 @@ theorem count_without_empty_counterexample :
   intro h
   have := h { fn := .count, without := true, fields := [], step := 10, name := [109] }
     [⟨[([97], [49])], [(5, 1)]⟩, ⟨[([97], [50])], [(6, 1)]⟩]
+    (by intro s hs; simp at hs; rcases hs with rfl | rfl <;> decide) ⟨[([97], [49])], [(5, 1)]⟩ (by decide) 0
+  revert this
+  decide +kernel
+
+/-- … and so is `count(m)` over two series under the SAME id (two TSIDs with one label set): counted once. -/
+theorem count_duplicate_ids_counterexample :
+    ¬ (∀ (q : Query) (ss : List Series), AllSafe q ss → ∀ s0 ∈ ss, ∀ t,
+        aggAt q ss (render q.without q.name (specGroupKey q.fields q.without s0.labels)) t
+          = specAt q ss (specGroupKey q.fields q.without s0.labels) t) := by
+  intro h
+  have := h { fn := .count, without := false, fields := [], step := 10, name := [109] }
+    [⟨[([97], [49])], [(5, 1)]⟩, ⟨[([97], [49])], [(6, 1)]⟩]
     (by intro s hs; simp at hs; rcases hs with rfl | rfl <;> decide) ⟨[([97], [49])], [(5, 1)]⟩ (by decide) 0
   revert this
   decide +kernel
@@ -220,10 +239,12 @@ example : SingleSample { fn := .avg, without := false, fields := [], step := 10,
 
 /-! ## 4. grouping by all labels is the identity -/
 
-/-- C09.4 If the `by` list contains every label name of every series, the members of a series' group are
+/-- C09.4 If the `by` list contains every label name of every series (label names unique within a
+series), the members of a series' group are
 exactly the series with the SAME LABEL SET (in a store with one series per label set: itself), so each
 output series is one input series. `without ()` is the identity literally. -/
-theorem group_by_all_labels_id (q : Query) (ss : List Series) (hby : q.without = false) (hs : AllSafe q ss)
+theorem group_by_all_labels_id (q : Query) (ss : List Series) (hby : q.without = false)
+    (hnd : ∀ s ∈ ss, (s.labels.map (·.1)).Nodup)
     (hall : ∀ s ∈ ss, ∀ kv ∈ s.labels, kv.1 ∈ q.fields) (s0 : Series) (h0 : s0 ∈ ss) (t : Nat) :
     specMembers q ss (specGroupKey q.fields q.without s0.labels) t
       = ss.filter (fun s => sameLabelSet s.labels s0.labels && !(samplesAt q.step t s.pts).isEmpty) := by
@@ -232,9 +253,7 @@ theorem group_by_all_labels_id (q : Query) (ss : List Series) (hby : q.without =
   intro s hm
   congr 1
   rw [hby]
-  have S := Lemmas.C09.safe_of_labelSafe (hs s hm)
-  have S0 := Lemmas.C09.safe_of_labelSafe (hs s0 h0)
-  have := Lemmas.C09.spec_by_all_eq_iff S.hnodup S0.hnodup (hall s hm) (hall s0 h0)
+  have := Lemmas.C09.spec_by_all_eq_iff (hnd s hm) (hnd s0 h0) (hall s hm) (hall s0 h0)
   by_cases e : specGroupKey q.fields false s.labels = specGroupKey q.fields false s0.labels
   · have h2 : sameLabelSet s.labels s0.labels = true := Lemmas.C09.sameLabelSet_iff.2 (this.1 e)
     simp [e, h2]
